@@ -38,7 +38,7 @@ refactor / optimisation / "simplification" / merge slip could introduce) such th
 
 And a demonstration: a new Go test file (in-package `_test.go`, name it `zz_seed_{pid.lower()}_test.go`, test name
 `TestSeed{pid}`) that FAILS with your change applied and PASSES on the unchanged tree (verify both, e.g. with
-`git stash` / `git stash pop`, or `git diff > p.diff; git checkout -- .; …; git apply p.diff`). For
+`git diff > p.diff; git checkout -- .; …; git apply p.diff` — do NOT use `git stash`: the stash is shared by all worktrees of this repository and other people work in sibling worktrees). For
 concurrency properties a demonstration that fails under `go test -race` (or deterministically forces the
 interleaving) is fine.
 
